@@ -241,6 +241,8 @@ func C01(r *core.Run) {
 	rule0112(r, "C01")
 	rule0213(r)
 	rule0113(r)
+	rule106(r)
+	rule163(r, hostMiddlewares(r))
 }
 
 func rule011(r *core.Run) {
@@ -1229,6 +1231,9 @@ func rule0112(r *core.Run, prop string) {
 	for _, pk := range []string{"gofakes3", "s3mem", "s3bolt", "s3afero", "goskipiter", "s3io"} {
 		for _, fn := range r.P.FuncsOfPkg(pk) {
 			f := fn
+			if prop == "C12" && !uploadDecodeFile(r, f) {
+				continue
+			}
 			fnRet := returnedErrors(f)
 			returnsErr := false
 			if res := f.Signature.Results(); res.Len() > 0 && core.IsErrorType(res.At(res.Len()-1).Type()) {
@@ -1485,8 +1490,11 @@ func rule0112(r *core.Run, prop string) {
 			})
 		}
 	}
-	r.Floor("R01.12", 150, "calls returning an error in the product packages")
-	_ = prop
+	if prop == "C12" {
+		r.Floor("R01.12", 8, "calls returning an error in the body-decoding path")
+	} else {
+		r.Floor("R01.12", 150, "calls returning an error in the product packages")
+	}
 }
 
 // recognisedSide: for a condition that compares the error with a specific
@@ -1591,4 +1599,20 @@ func rule0113(r *core.Run) {
 		}
 	}
 	r.Floor("R01.13", 60, "returns handing back a call's error")
+}
+
+// uploadDecodeFile: fn belongs to the request-body decoding path (the chunked
+// decoder, the digest reader, the bounded read helper, the upload handlers).
+func uploadDecodeFile(r *core.Run, fn *ssa.Function) bool {
+	p := r.P.Pos(fn.Pos())
+	for _, f := range []string{"chunk.go:", "hash.go:", "util.go:"} {
+		if strings.HasPrefix(p, f) {
+			return true
+		}
+	}
+	switch fname(r, fn) {
+	case "gofakes3.(*GoFakeS3).createObject", "gofakes3.(*GoFakeS3).putMultipartUploadPart", "gofakes3.(*uploader).UploadPart":
+		return true
+	}
+	return false
 }
